@@ -229,6 +229,11 @@ oracle("c06.comb")(ccheck)
 PLAN = {
     "quick": [dict(harness="c06.cancel", bound=2), dict(harness="c06.cancel.lines", bound=1),
               dict(harness="c06.comb", bound=2)],
-    "thorough": [dict(harness="c06.cancel", bound=3), dict(harness="c06.cancel.lines", bound=2),
+    # thorough = quick + one more deviation on the single-layer cells and the one-canceller two-layer cells (tools/size_plan.py:
+    # the extra deviation over all 73 / 45 cells is ~2 h on 16 cores)
+    "thorough": [dict(harness="c06.cancel", bound=2),
+                 dict(harness="c06.cancel", bound=3, select=lambda p: len(p["layers"]) == 1 or (p["ncan"] == 1 and p["when"] in (0.0, 1.0))),
+                 dict(harness="c06.cancel.lines", bound=1),
+                 dict(harness="c06.cancel.lines", bound=2, select=lambda p: len(p["layers"]) == 1),
                  dict(harness="c06.comb", bound=3)],
 }
